@@ -14,6 +14,12 @@ CHECKS = {
  "C12": dict(technique="static analysis: path-order rules over enumerated MIR paths (must-pass-through), error-value census, public-API census",
    text="Ordering and census properties that make the statement hold on every input: decoder only after authentication success, validator only after decode success, backends return only unit error variants, PayloadError constructed only at reviewed sites, footer reachable only via unverified_footer.",
    ref="DESIGN.md §4 C12"),
+ "C03": dict(technique="static analysis: symbolic summaries compared with hand-transcribed specification terms (T-SPEC) and between sibling backends (T-SIB); unseal Err-exit whitelist",
+   text="For all 12 seal functions the normalised construction (nonce derivation, KDF separators and split points, cipher identity incl. CTR counter width, MAC, PAE piece order, signature scheme and signed message, output layout) equals the specification term of its version; v3≡v3-aws-lc and v4≡v4-sodium produce identical terms; no unseal rejects on a condition the spec does not state; paseto-core passes received bytes unmodified. Library primitives are assumed to compute the standard functions.",
+   ref="DESIGN.md §4 C03"),
+ "C07": dict(technique="static analysis: symbolic blob terms (via paseto-core generics, DH/RSA-KEM algebra) compared with specification terms and between siblings; T-FIXW over FFI big-integer encoders; unwrap Err-exit whitelist",
+   text="For 6 backends x {PIE, PBKW, PKE}: the blob term equals the PASERK specification term (domain bytes, KDF identities/split points, cipher incl. 128-bit CTR counter, MAC transcript order, parameter field layout), siblings (v3/aws-lc, v4/sodium, v1/v3, v2/v4) agree up to listed guarded deltas, every BN_bn2bin writes right-aligned into a fixed-width buffer, unwrap functions reject only on conditions the format states.",
+   ref="DESIGN.md §4 C07"),
  "C05": dict(technique="static analysis: summary composition wrap∘unwrap through paseto-core generics (PIE, PBKW, PKE incl. DH / RSA-KEM term algebra), fixed-width layout, Err-exit and parameter-rejection classification",
    text="For 6 backends x {PIE, PBKW, PKE}: the wrap/seal summary and the unwrap/unseal summary are composed symbolically and must cancel (tag check compares identical constructions, decoder receives exactly the encoded key / the sealed key comes back), the blob is fixed-width fields plus the key field with the overhead the format prescribes, no variable-length integer encoding reaches an output field unpadded, wrap paths fail only for environmental reasons or reviewed parameter rejections.",
    ref="DESIGN.md §4 C05"),
